@@ -1,8 +1,15 @@
 import numpy as np
 
 
+def _as_symbol_array(seq):
+    arr = np.array(seq)
+    if arr.dtype.kind in 'US' and not all(isinstance(sym, (str, bytes)) for sym in seq):
+        arr = np.array(seq, dtype=object)  # np.array() would turn the non-string symbols into strings
+    return arr
+
+
 def levenshtein_distance(source, target, sub_cost=1, ins_cost=1, del_cost=1):
-    target = np.array(target)
+    target = _as_symbol_array(target)
     dist = np.arange(len(target) + 1) * ins_cost
     for s in source:
         dist[1:] = np.minimum(dist[1:] + del_cost, dist[:-1] + (target != s) * sub_cost)
@@ -14,7 +21,7 @@ def levenshtein_distance(source, target, sub_cost=1, ins_cost=1, del_cost=1):
 
 
 def levenshtein_alignment(source, target, sub_cost=1, ins_cost=1, del_cost=1, empty_symbol=None):
-    target = np.array(target)
+    target = _as_symbol_array(target)
     backtrack = np.ones((len(source) + 1, len(target) + 1))
     backtrack[0] = -1
     dist = np.arange(len(target) + 1) * ins_cost
@@ -43,7 +50,7 @@ def levenshtein_alignment(source, target, sub_cost=1, ins_cost=1, del_cost=1, em
 
 
 def levenshtein_alignment_path(source, target, sub_cost=1, ins_cost=1, del_cost=1, empty_symbol=None):
-    target = np.array(target)
+    target = _as_symbol_array(target)
     backtrack = np.ones((len(source) + 1, len(target) + 1))
     backtrack[0] = -1
     dist = np.arange(len(target) + 1) * ins_cost
@@ -75,7 +82,7 @@ def edit_stats_for_alignment(alig, empty_symbol=None):
     if len(alig) == 0:
         return 0, 0, 0, 0, 0
 
-    alig = np.array(alig)
+    alig = np.array(alig, dtype=object)
     ncor = np.sum(alig[:, 0] == alig[:, 1])
     ndel = np.sum(alig[:, 0] == np.array(empty_symbol))
     nphn = np.sum(alig[:, 1] != np.array(empty_symbol))
@@ -88,7 +95,7 @@ def levenshtein_distance_substring(source, target, sub_cost=1, ins_cost=1, del_c
     if len(target) > len(source):
         target, source = source, target
 
-    target = np.array(target)
+    target = _as_symbol_array(target)
     dist = np.ones((1 + len(target) + 1)) * float('inf')
     dist[0] = 0
     for s in source:
@@ -108,7 +115,7 @@ def levenshtein_alignment_substring(source, target, sub_cost=1, ins_cost=1, del_
         target, source = source, target
         swapped = True
 
-    target = np.array(target)
+    target = _as_symbol_array(target)
     backtrack = np.ones((len(source) + 1, 1 + len(target) + 1))
     backtrack[0] = -1
     dist = np.ones((1 + len(target) + 1)) * float('inf')
